@@ -123,7 +123,7 @@ def gen_sum(rng, n, tier):
                     if rng.random() < 0.3:
                         pnt[2] = float(nodata)
         out.append({'tracks': tracks, 'nodata': nodata, 'res': [rng.choice([0.5, 1, 2, 3]), rng.choice([0.5, 1, 2, 3])], 'margin': rng.choice([0.0, 0.0, 0.25, 0.5]),
-                    'order': rng.sample(OPS, len(OPS)), 'layout': rng.choice([None, None, [False, True], [True, False, True]]), 'again': rng.choice([None, None, None, 'same', 'other'])})
+                    'order': rng.sample(OPS, len(OPS)), 'layout': rng.choice([None, None, [False, True], [True, False, True]]), 'again': rng.choice([None, None, None, 'same', 'other']), 'fname': rng.choice(['f', 'f', 'f', 'd', 'id', 'u', 'i', 'ui', 'v', 'speed2'])})
     return out
 
 
@@ -134,28 +134,29 @@ def run_sum(case):
     import tracklib.core.utils as U
     sm = sys.modules['tracklib.algo.summarising']
     trs = []
+    FN = case.get('fname', 'f')                      # the name of the summarised feature is the user's: short names, pieces of the reserved name "uid"
     for pts in case['tracks']:
-        t = Track([Obs(ENUCoords(x, y, 0), ObsTime.readUnixTime(i)) for i, (x, y, v) in enumerate(pts)])
+        t = Track([Obs(ENUCoords(x, y, 0), ObsTime.readUnixTime(i)) for i, (x, y, v) in enumerate(pts)], user_id=11 + len(trs))
         if case.get('layout') and case['layout'][len(trs) % len(case['layout'])]:
             t.createAnalyticalFeature('g', [1000.0 + i for i in range(len(pts))])      # another feature created first on this track: 'f' is not stored at the same index on every track
-        t.createAnalyticalFeature('f', [nan if v is None else v for (_, _, v) in pts])
+        t.createAnalyticalFeature(FN, [nan if v is None else v for (_, _, v) in pts])
         if case.get('nodata') is not None:
             t.no_data_value = case['nodata']          # the marker a file reader leaves on its tracks; a measured value may be equal to it
         trs.append(t)
     col = TrackCollection(trs)
     ops = [getattr(U, o) for o in case.get('order', OPS)]          # the aggregates are computed in the order they are asked for: every order must give the same maps
-    r = sm.summarize(col, ['f'] * len(ops), ops, resolution=tuple(case['res']), margin=case['margin'], verbose=False)
+    r = sm.summarize(col, [FN] * len(ops), ops, resolution=tuple(case['res']), margin=case['margin'], verbose=False)
     if case.get('again'):
         # the raster is used again: the same collection is summarised on it a second time, or another collection (other values at some of the same places) in between;
         # the maps describe the collection added last
         if case['again'] == 'other':
             t2 = Track([Obs(ENUCoords(x, y, 0), ObsTime.readUnixTime(i)) for i, (x, y, v) in enumerate(case['tracks'][0])])
-            t2.createAnalyticalFeature('f', [100.0 + i for i in range(t2.size())])
+            t2.createAnalyticalFeature(FN, [100.0 + i for i in range(t2.size())])
             r.addCollectionToRaster(TrackCollection([t2])); r.computeAggregates()
         r.addCollectionToRaster(col); r.computeAggregates()
     grids = {}
     for o in OPS:
-        g = r.getAFMap('f#' + o).grid
+        g = r.getAFMap(FN + '#' + o).grid
         grids[o] = [[float(g[i][j]) for j in range(r.ncol)] for i in range(r.nrow)]
     cells = [[None if c is None else [int(c[0]), int(c[1])] for c in [r.getCell(ENUCoords(x, y, 0)) for (x, y, v) in pts]] for pts in case['tracks']]
     return {'ext': [r.xmin, r.xmax, r.ymin, r.ymax], 'ncol': r.ncol, 'nrow': r.nrow, 'grids': grids, 'cells': cells}
